@@ -80,21 +80,40 @@ func (a *fieldAggregator) ResultSet() (startTime int64, it series.FieldIterator)
 func (a *fieldAggregator) Aggregate(it series.FieldIterator) {
 	for it.HasNext() {
 		pIt := it.Next()
+		// a partial result carries one primitive series per aggregate type:
+		// merge it into the aggregate of the same type only
+		target := -1
+		if len(a.aggTypes) > 1 {
+			for idx, aggType := range a.aggTypes {
+				if aggType == pIt.AggType() {
+					target = idx
+					break
+				}
+			}
+		}
 		for pIt.HasNext() {
 			slot, value := pIt.Next()
-			a.AggregateBySlot(slot, value)
+			a.aggregateBySlot(target, slot, value)
 		}
 	}
 }
 
 // AggregateBySlot aggregates the field series into current aggregator
 func (a *fieldAggregator) AggregateBySlot(slot int, value float64) {
+	a.aggregateBySlot(-1, slot, value)
+}
+
+// aggregateBySlot aggregates the value into the aggregate with index target(all aggregates if target < 0).
+func (a *fieldAggregator) aggregateBySlot(target, slot int, value float64) {
 	// drop inf value
 	if math.IsInf(value, 1) {
 		return
 	}
 	pos := slot - a.start
 	for idx, aggType := range a.aggTypes {
+		if target >= 0 && idx != target {
+			continue
+		}
 		values := a.fieldSeriesList[idx]
 		if values == nil {
 			values = collections.NewFloatArray(a.end - a.start + 1)
